@@ -262,16 +262,12 @@ def dist_update(p):
 
     def body(a):
         items = list(a)
-        mod = sys.modules['rxsci.math.dist']
-        real = mod.distogram
         fake = _FakeDistogram()
-        mod.distogram = fake
-        try:
+        from vp import harness
+        with harness.stubbed([('rxsci.math.dist', 'distogram', fake)]):
             head, tail = [], []
             inner = [D.tap(head), rs.math.dist.update(reduce=reduce), D.tap(tail, lambda x: list(x))]
             D.src(items).pipe(rs.state.with_memory_store([rs.ops.group_by(lambda i: 0 if i % 2 == 0 else 1, inner)])).subscribe(on_error=lambda e: tail.append(('ERR', repr(e))))
-        finally:
-            mod.distogram = real
         ins, ok1 = D.lifetimes(head)
         outs, ok2 = D.lifetimes(tail)
         if not ok1 or not ok2 or len(ins) != len(outs) or fake.made != len(ins):
